@@ -80,6 +80,8 @@ def run(ctx):
             cases.append({'kind': 'probes', 'role': 'server', 'banner': b'SSH-2.0-OpenSSH_8.9p1', 'opts': opts, 'port': None,
                           'lists': {'kex': kexs, 'key': [b'ssh-ed25519', b'rsa-sha2-512', b'ssh-rsa', b'ssh-ed25519'][i:], 'enc': [b'aes256-ctr', b'aes128-ctr', b'aes256-ctr'], 'mac': [b'hmac-sha2-512', b'hmac-sha2-256'], 'comp': comp}})
     s1cases = [{'cmask': rng.getrandbits(7) | (1 << rng.randrange(7)), 'amask': rng.getrandbits(7) & 0x7e | (1 << rng.randrange(1, 7)), 'opts': OPTS[i % len(OPTS)]} for i in range(10 if q else 128)]
+    # masks without any named bit (nothing advertised in that category) are masks too
+    s1cases += [{'cmask': 0, 'amask': 0x0c, 'opts': ['-n']}, {'cmask': 0x4c, 'amask': 0, 'opts': ['-j']}, {'cmask': 0, 'amask': 0, 'opts': ['-n', '-v']}, {'cmask': 0x80, 'amask': 0x01, 'opts': ['-n']}]
     if not q:
         s1cases += [{'cmask': m, 'amask': (m * 2) & 0x7e or 2, 'opts': ['-n']} for m in range(1, 128)]
 
